@@ -22,7 +22,7 @@ from translate import t_c09
 FIELDS = ['x', 'y', 'z']
 DKEYS = ['a', 'b', 'c', 'd']
 MISSING = {'missing': True}
-NEG_DEL_OK = [True]      # fixes/C09-F110.patch: `del l[-1]` reports the position (before: the key path [-1])
+NEG_DEL_OK = [True]      # fixes/C09-F112.patch: `del l[-1]` reports the position (before: the key path [-1])
 _CLS = {}
 LOG = []
 OBJ_IDS = {}
@@ -656,7 +656,7 @@ class C09(Prop):
       'notify_on_change(False) leaves MISSING_VALUE placeholders (known finding C02-F03) and is neither generated '
       'nor modelled',
       'THE MODEL MIRRORS THE TREE WITH fixes/C09-F55.patch (clear / popitem / sort / reverse report what they removed '
-      '/ moved) AND fixes/C09-F110.patch (del l[-1] reports the position) APPLIED',
+      '/ moved) AND fixes/C09-F112.patch (del l[-1] reports the position) APPLIED',
       'position-shifting list calls: the contract is read on the edit (removed item -> MISSING at its former position, '
       'MISSING -> inserted item at its new position, old -> new for replaced items)',
   ]
